@@ -107,6 +107,27 @@ private theorem step_inv (s : Option SSt) (log : List Entry) (c : Call) (hI : In
       · subst h; exact Int.le_refl _
       · exact hle e h
 
+/-- `ResetAtMs` identifies the window the call was counted in: that window has not ended at the
+caller's own clock reading — for `Check` (n = 0) as for any other call, whatever the state. -/
+theorem reset_at_not_in_past (s : Option SSt) (c : Call) (hw : c.cur ≤ c.next) :
+    c.cur ≤ (step s c).expiresAt := by
+  cases s with
+  | none => simpa [step, scriptS] using hw
+  | some st =>
+    simp only [step, scriptS]
+    split
+    · exact hw
+    · simp only; omega
+
+/-- … and a call that finds no live window (none, or one that ended before `cur`) is counted in a
+fresh one: its counter is exactly its own `n` (for `Check`: 0, so Remaining = limit). -/
+theorem fresh_window_counts_from_zero (s : Option SSt) (c : Call)
+    (hs : ∀ st, s = some st → st.expiresAt < c.cur) :
+    (step s c).count = c.n ∧ (step s c).expiresAt = c.next := by
+  cases s with
+  | none => simp [step, scriptS]
+  | some st => simp [step, scriptS, hs st rfl]
+
 private theorem runAcc_good : ∀ (cs : List Call) (s : Option SSt) (log : List Entry),
     Inv s log → Good log → (∀ c ∈ cs, c.cur ≤ c.next) → Good (runAcc s log cs) := by
   intro cs
